@@ -6,10 +6,12 @@
 From Sdns Require Import Common.Base Common.GoList Gen.C19.
 Open Scope Z_scope.
 
-(* a request about which nothing is known yet but its octets *)
+(* a request about which nothing is known yet but its octets: every flag false, every number 0, every
+   other list empty.  Built field by field from the field TYPES, so that a field added to
+   middleware.Request (or one more field the translator learns to carry) does not break the definition;
+   blank_request_ok (Proofs_wirereq.v) checks that the fields the walk reads came out right. *)
 Definition blank_request (raw : list N) : T_Request :=
-  mk_T_Request raw 0%N 0%N 0%N 0%N 0 0 0 false 0%N false 0%N false false false 0 0 0 false
-               (mk_T_Policy false 0%N 0%N 0%N 0%N).
+  ltac:(repeat first [ exact raw | exact false | exact 0%N | exact 0%Z | exact nil | constructor ]).
 
 (* Request.parseWireOPT(off): is the single additional record an OPT the strict path admits ... *)
 Definition wire_opt_admitted (raw : list N) (off : Z) : option bool :=
